@@ -14,9 +14,10 @@ import PyTough.Model.ListingHistory
 import PyTough.Proofs.ListingHistory
 import PyTough.Proofs.ListingFile
 import PyTough.Proofs.ListingSeriesStep
+import PyTough.Proofs.ListingSeriesTimes
 
 namespace Props.C06
-open Py Model Model.Listing Proofs.History Proofs.SeriesStep
+open Py Model Model.Listing Proofs.History Proofs.SeriesStep Proofs.SeriesTimes
 
 /-! ### one pass over a table returns exactly the selected cells -/
 
@@ -101,6 +102,65 @@ example : exT.data.size = exT.rows.size ∧ rowInPlace exT exL 0 0 = true ∧ ro
 -- history() asked for X of row 1 (line 2) and then P of row 0 reads them in line order
 example : (scanSel (fun l => readTableLineTOUGH2 l 3 exT.numpos) (colIdx exT.cols) (sortSel [(2, ['X'], false, 0), (0, ['P'], false, 1)]) 0
     (exL.headD []) exL.tail).map (·.1) = .ok [(1, .fin false 99013 2), (0, .fin true 66842 (-4))] := by decide
+
+/-! ### over all result times: one value per result time, in time order
+
+  `valuesAt … pb i` is what history() appends at ONE result position `pb` with index `i` — it seeks there and sets the index
+  before reading, so it is a function of the position alone; `visitAll f ps 0` visits the positions `ps` in turn with indices
+  0, 1, 2, …; `seriesOf k hits` are the values appended for selection item `k`. -/
+
+/-- Whole call, every simulator, any selection, with or without short output: a history() call that returns series has
+    visited every result position of the file in turn (`hitss` has one entry per position, in file order = time order), what it
+    appended at a position does not depend on the positions before it, and the series it returns for item `k` is the
+    concatenation, in that order, of the values appended for `k` at each position (paired with `fulltimes` exactly when its
+    length is the number of full result times — the Boolean). -/
+theorem history_series_visits_every_time (items : List Item) (short : Bool) (env : Rd) (c c' : Cur) (r : List (Bool × List FVal))
+    (h : historyC items short env c = .ok (some r, c')) :
+    ∃ tsel hitss, orderedSelection env items = .ok tsel ∧
+      visitAll (valuesAt env tsel short (fileTablesOf env) env) (resultPositions env) 0 = .ok hitss ∧
+      hitss.length = (resultPositions env).length ∧
+      r = (List.range items.length).map fun k =>
+        (((hitss.map (seriesOf k)).flatten).length == env.fulltimes.size, (hitss.map (seriesOf k)).flatten) :=
+  historyC_series items short env c c' r h
+
+/-- … so when every visited position contributes exactly one value `vs[i]` for item `k` (a row present at every time), the
+    series of `k` is `vs`: one value per result time, in time order. -/
+theorem series_one_value_per_time (k : Nat) (hitss : List (List (Nat × FVal))) (vs : List FVal)
+    (h : hitss.map (seriesOf k) = vs.map (fun v => [v])) :
+    (hitss.map (seriesOf k)).flatten = vs ∧ ((hitss.map (seriesOf k)).flatten).length = hitss.length := by
+  have := flatten_singletons k hitss vs h
+  refine ⟨this, ?_⟩
+  rw [this]
+  have := congrArg List.length h
+  simpa using this.symm
+
+-- an AUTOUGH2-style file with two result times, an element table of two rows; items: T of row 1 (by index), P of row 'A 1' (by name)
+private def exR1 : List Str := [" OUTPUT\n".toList, " EEEEE\n".toList, "\n".toList, " A 1  1  1.5 2.5\n".toList, " B 1  2  3.5 4.5\n".toList, " EEEEE\n".toList]
+private def exR2 : List Str := [" OUTPUT\n".toList, " EEEEE\n".toList, "\n".toList, " A 1  1  5.5 6.5\n".toList, " B 1  2  7.5 8.5\n".toList, " EEEEE\n".toList]
+private def exTA : Table := { mkTable [['P'], ['T']] #[["A 1".toList], ["B 1".toList]] 1 false with keyPos := [1], numpos := [some 8] }
+private def exEnv : Rd := {
+  all := exR1 ++ exR2
+  isOutputData := false
+  pos := ⟨0, exR1 ++ exR2⟩
+  fam := Fam.autough2
+  allpos := #[⟨0, exR1 ++ exR2⟩, ⟨6, exR2⟩]
+  fullpos := #[⟨0, exR1 ++ exR2⟩, ⟨6, exR2⟩]
+  short := #[false, false]
+  fulltimes := #[zero, zero]
+  times := #[zero, zero]
+  tables := [("element", exTA)] }
+private def exItems : List Item := [⟨['e'], .int 1, ['T']⟩, ⟨['e'], .name ["A 1".toList], ['P']⟩]
+-- (evaluated by the kernel: the whole call on the concrete file)
+example : (match historyC exItems false exEnv ⟨exEnv.pos, 0⟩ with
+    | .ok (some r, _) => r == [(true, [.fin false 45 (-1), .fin false 85 (-1)]), (true, [.fin false 15 (-1), .fin false 55 (-1)])]
+    | _ => false) = true := by decide +kernel
+example : (match orderedSelection exEnv exItems with
+    | .ok tsel => (match visitAll (valuesAt exEnv tsel false (fileTablesOf exEnv) exEnv) (resultPositions exEnv) 0 with
+        | .ok hitss => hitss == [[(1, .fin false 15 (-1)), (0, .fin false 45 (-1))], [(1, .fin false 55 (-1)), (0, .fin false 85 (-1))]]
+        | _ => false)
+    | _ => false) = true := by decide +kernel
+example : [[(1, FVal.fin false 15 (-1)), (0, .fin false 45 (-1))], [(1, .fin false 55 (-1)), (0, .fin false 85 (-1))]].map (seriesOf 0)
+    = [FVal.fin false 45 (-1), .fin false 85 (-1)].map (fun v => [v]) := by decide
 
 /-! ### a connection named in reverse order yields the negated series -/
 
